@@ -24,13 +24,15 @@ Definition cvl_cmp (exact : bool) (scale : Q) (a b : list cv) : bool := forallb2
 Inductive vfun :=
 | FAffine (c : list cv) (A : list (list cv))     (* component k: c_k + sum_a A_k,a * p_a *)
 | FQuad (c : list cv)                            (* component k: c_k * sum_a p_a^2 *)
-| FConstLen (v : cv) (k : nat).                  (* k copies of v whatever nvdim is *)
+| FConstLen (v : cv) (k : nat)                   (* k copies of v whatever nvdim is *)
+| FBadAt (f : vfun) (centre_ : list Q) (k : nat). (* f, except at one cell centre: k values (or an exception) *)
 
-Definition eval_fun (f : vfun) (p : list Q) : list cv :=
+Fixpoint eval_fun (f : vfun) (p : list Q) : list cv :=
   match f with
   | FAffine c A => map2 (fun ck row => cv_add ck (cv_sum (map2 cv_scale p row))) c A
   | FQuad c => map (cv_scale (qsum (map (fun x => x * x) p))) c
   | FConstLen v k => repeat v k
+  | FBadAt g ctr k => if qlist_eqb p ctr then repeat cv0 k else eval_fun g p
   end.
 
 (* ---------- encodable meshes, fields and specifications ---------- *)
@@ -121,6 +123,16 @@ Definition field_adm (m : mesh) (nv : nat) (src : fstate cv) (obs : list cv) : b
               existsb (fun j => cvl_cmp true 0 (farr src j) row) (cands (fmesh src) (centre m i)))
            idxs rows.
 
+(* scale regime: cells whose closed extent, widened by tol, contains the point *)
+Definition cand_tol1 (tol lo c : Q) (k : Z) (q : Q) : list Z :=
+  let j := p2i1 lo c k q in
+  filter (fun i => in_range1 k i && Qle_bool (lo + inject_Z i * c - tol) q &&
+                   Qle_bool q (lo + (inject_Z i + 1) * c + tol)) [(j - 1)%Z; j; (j + 1)%Z].
+
+Definition cands_tol (tol : Q) (s : mesh) (q : list Q) : list zidx :=
+  fold_right (fun cs acc => flat_map (fun j => map (cons j) acc) cs) [[]]
+    (map3 (fun lc k x => cand_tol1 tol (fst lc) (snd lc) k x) (combine (pmin (reg s)) (cell s)) (n s) q).
+
 Inductive c02_case :=
 | CInit (exact : bool) (scale : Q) (d : meshd) (nv : nat) (s : vspec) (obs : option (list cv))
 | CAssign (d : meshd) (nv : nat) (s0 s1 : vspec) (obs_ok : bool) (obs_after : list cv)
@@ -129,7 +141,9 @@ Inductive c02_case :=
         (obs : option (list cv))
 | CIter (d : meshd) (nv : nat) (s : vspec) (obs : list (list cv))
 | CLine (d : meshd) (nv : nat) (s : vspec) (p1 p2 : list Q) (k : Z)
-        (obs : option (list (list Q) * list (list cv) * list Q)).
+        (obs : option (list (list Q) * list (list cv) * list Q))
+| CLineS (tol : Q) (d : meshd) (nv : nat) (s : vspec) (p1 p2 : list Q) (k : Z)
+         (obs : option (list (list Q) * list (list cv))).
 
 Definition r_ok (r2max : Q) (r : Q) (r2 : Q) : bool :=
   Qle_bool 0 r && qclose rel_tol r2max (r * r) r2.
@@ -198,6 +212,23 @@ Definition check_C02 (c : c02_case) : bool :=
               forallb2 qlist_eqb (l_points l) pts &&
               forallb2 (cvl_cmp true 0) (l_values l) vals &&
               forallb2 (r_ok (dist2 p1 p2)) rs (l_r2 l)
+          | Err _, None => true
+          | _, _ => false
+          end
+      | _ => false
+      end
+  | CLineS tol d nv s p1 p2 k obs =>
+      (* non-dyadic end points: the points agree within tol and EVERY value is the stored value of a
+         cell that contains the returned point (within tol) *)
+      match mk d nv s None with
+      | OK (OK f) =>
+          match mesh_line (fmesh f) p1 p2 k, obs with
+          | OK pts, Some (opts, ovals) =>
+              (length opts =? length pts)%nat && (length ovals =? length pts)%nat &&
+              forallb2 (fun p q => forallb2 (qclose tol 1) p q) pts opts &&
+              forallb2 (fun q v => (length q =? length (pmin (reg (fmesh f))))%nat &&
+                                   existsb (fun j => cvl_cmp true 0 (farr f j) v) (cands_tol tol (fmesh f) q))
+                       opts ovals
           | Err _, None => true
           | _, _ => false
           end
